@@ -248,6 +248,19 @@ func (x *Exec) builtin(st *State, call *ast.CallExpr, name string) []Value {
 		x.doPanic(st, call)
 		st.dead = true
 		return nil
+	case "new":
+		// new(T) for a struct type: a fresh zeroed object, like &T{}
+		t := x.typeOf(call.Args[0])
+		if _, ok := t.Underlying().(*types.Struct); ok {
+			sv := x.zero(st, t).(StructV)
+			ref := x.allocRef(st)
+			p := PtrV{Ref: ref, Elem: t}
+			for name, v := range sv.F {
+				x.writeField(st, p, name, v)
+			}
+			return []Value{p}
+		}
+		fail("new(%s) not in subset at %s", t, x.pos(call.Pos()))
 	case "print", "println":
 		// diagnostics to stderr: the arguments are evaluated (their safety obligations count), nothing else changes
 		for _, a := range call.Args {
